@@ -76,6 +76,13 @@ def run(prog: Program, rep: Report, tier: str):
                     "torch ConcatDataset.cumulative_sizes is the prefix sum of the part lengths in list order"]
     rep.not_decided += ["the modulo / floor-division arithmetic of 'reached or crossed' beyond its shape and the unit of "
                         "its operands", "batch contents at the DataLoader level with worker processes"]
+    if R.main_iter is None and R.chunk_source_node is not None:
+        rep.rule("G8.main-loop-form", "the decision and pass rules of the training loop are read off the per-index loop 'for i in "
+                 "self.main_sampler'; a loop that takes the main indices in chunks from one iterator is not decided (the "
+                 "evaluation loop, the tables and the dispatch still are)")
+        rep.unk("G8.main-loop-form", fi, "chunked-main-loop", "main indices are taken in chunks from iter(self.main_sampler): "
+                "training-loop rules not decided", line=R.line(R.chunk_source_node), clause="C05.1")
+        return _rest_of_run(prog, rep, tier, None)
     rep.require(R.main_iter is not None and R.cfg_iter is not None and R.passes,
                 "anchor-missing: main loop / config loop / pass loop in _training_loop")
     N = R.main_next
@@ -90,7 +97,7 @@ def run(prog: Program, rep: Report, tier: str):
     CN = R.cfg_next
     cfg_term = ("var", R.cfg_var, frozenset({CN}))
     cfg_body = R.loop_body_nodes(CN)
-    rep.require(len(R.passes) == 1, "anchor-missing: exactly one pass loop expected in _training_loop")
+    # (a fast path may spell the pass twice, in exclusive branches: every spelling is judged)
     P = R.passes[0]
 
     # ---- 1. decision ------------------------------------------------------------------------------------------
@@ -105,11 +112,14 @@ def run(prog: Program, rep: Report, tier: str):
     for t_, lab in cfg.control_predicates(P.iter_node):
         if t_ in cfg_body and cfg.nodes[t_].kind == "test":
             guard = (t_, lab)
-    rep.require(guard is not None, "anchor-missing: test guarding the pass inside the config loop")
+    if guard is None:
+        rep.unk("G4.decision-function", fi, "decision", "no test inside the config loop guards the pass (the decision is taken "
+                "elsewhere): not decided", clause="C05.1")
     upd_cond = R.term_at(T2) if T2lab else negate(R.term_at(T2))
     end_atoms = [x for x in (upd_cond[1] if upd_cond[0] == "or" else [upd_cond]) if x[0] == "eq"
                  and not any(lf == ("self", "batch_size") or (lf[0] == "var" and lf[1] == "self.batch_size") for lf in leaves(x))]
-    _decision_function(rep, R, P, cfg_term, counters, end_atoms, guard)
+    if guard is not None:
+        _decision_function(rep, R, P, cfg_term, counters, end_atoms, guard)
 
     # ---- 2. position --------------------------------------------------------------------------------------------
     rep.rule("G8.pass-position", "the config loop lies inside the update block (only after an update), after the update / "
@@ -155,20 +165,33 @@ def run(prog: Program, rep: Report, tier: str):
     rep.rule("G8.pass-whole", "inside a pass every sampler element is yielded exactly once (no break / early exit / skip); "
              "its in-pass counter starts at 0 for every pass, grows by one per element before the yield; the batch-closing "
              "flag is 'counter % (config.batch_size or self.batch_size) == 0 or counter == len(config.sampler)'")
-    facts_train = _check_pass(rep, R, P, "train")
+    facts_train = [_check_pass(rep, R, p_, "train" if i_ == 0 else f"train#{i_}") for i_, p_ in enumerate(R.passes)]
+    _rest_of_run(prog, rep, tier, facts_train)
+
+
+def _rest_of_run(prog: Program, rep: Report, tier: str, facts_train):
     R2 = Roles(prog, "_eval_loop")
     rep.analysed_add("functions", f"{FILE}:{R2.fi.qualname}")
-    rep.require(len(R2.passes) == 1 and R2.cfg_iter is not None, "anchor-missing: config / pass loop in _eval_loop")
-    facts_eval = _check_pass(rep, R2, R2.passes[0], "eval")
+    if "G8.pass-whole" not in rep.rules:
+        rep.rule("G5.offset-pairing", "every index yielded inside a pass is index_offsets[k] + i, i being the current element of "
+                 "the sampler of the k-th config of the same enumerate(self.configs) step")
+        rep.rule("G8.pass-whole", "inside a pass every sampler element is yielded exactly once; the batch-closing flag is "
+                 "'counter % (config.batch_size or self.batch_size) == 0 or counter == len(config.sampler)'")
+    rep.require(len(R2.passes) >= 1 and R2.cfg_iter is not None, "anchor-missing: config / pass loop in _eval_loop")
+    facts_eval = [_check_pass(rep, R2, p_, "eval" if i_ == 0 else f"eval#{i_}") for i_, p_ in enumerate(R2.passes)]
     rep.rule("G9.eval-vs-train", "the pass in _eval_loop and the pass in _training_loop have equal summaries (offset term, "
              "flag condition up to the names of their locals)")
-    rep.decide(facts_train == facts_eval, "G9.eval-vs-train", R2.fi, "summary",
+    key_ = lambda fs: sorted(repr(f_) for f_ in fs)
+    rep.decide(None if facts_train is None else key_(facts_train) == key_(facts_eval), "G9.eval-vs-train", R2.fi, "summary",
                "equal summaries", f"summaries differ: train {facts_train} vs eval {facts_eval}", clause="C05.3")
     # eval loop: every config, unconditionally
     rep.rule("G8.eval-all", "__iter__ routes a zero budget to _eval_loop (and everything else to _training_loop); _eval_loop "
              "iterates every config of self.configs once, in order, under no further condition")
     c2 = R2.fa.cfg
     guards = [t for t, lab in c2.control_predicates(R2.passes[0].iter_node) if c2.nodes[t].kind == "test"]
+    if guards and len(R2.passes) > 1 and c2.must_pass({p_.iter_node for p_ in R2.passes}, src=R2.body_entry(R2.cfg_next),
+                                                      dst=R2.cfg_next):
+        guards = []  # the pass is spelled several times in exclusive branches: every path runs one of them
     it2 = R2.fa.sym.term(R2.cfg_loop.iter, R2.cfg_iter)
     ok = not guards and (it2 in (("self", "configs"), ("call", ("global", "enumerate"), (("self", "configs"),), ())) or (
         it2[0] == "call" and it2[1] == ("global", "zip") and not it2[3] and ("self", "configs") in it2[2]
@@ -193,7 +216,7 @@ def _decision_function(rep: Report, R: Roles, P: PassLoop, cfg_term: Term, count
     body = R.loop_body_nodes(CN)
     snaps = set(R.snapshots_of(counters["sample"]))
     try:
-        D, n_paths = path_condition(fa, R.body_entry(CN), {P.iter_node}, body, barrier={CN})
+        D, n_paths = path_condition(fa, R.body_entry(CN), {p_.iter_node for p_ in R.passes}, body, barrier={CN})
     except GiveUp as e:
         rep.unk("G4.decision-function", fi, "decision", f"not decided: {e}", line=R.line(guard[0]), clause="C05.1")
         return
@@ -426,14 +449,14 @@ def _check_pass(rep: Report, R: Roles, p: PassLoop, tag: str):
     # counter + flag
     norm_flags = set()
     for y, cond in facts["flags"]:
-        ok, why, norm = _flag_form(R, p, cond)
+        ok, why, norm = _flag_form(R, p, cond, y)
         norm_flags.add(norm)
         rep.decide(ok, "G8.pass-whole", fi, f"flag@{tag}:{' '.join(ast.unparse(yields_at(fa, y)[0].value).split())[:60]}",
                    why, why, line=R.line(y), clause="C05.3")
     return {"offsets": sorted(norm_offs), "flags": sorted(norm_flags)}
 
 
-def _flag_form(R: Roles, p: PassLoop, cond: Optional[Term]):
+def _flag_form(R: Roles, p: PassLoop, cond: Optional[Term], y: Optional[int] = None):
     fa, cfg = R.fa, R.fa.cfg
     if cond is None:
         return None, "flag condition not recognised", "?"
@@ -465,6 +488,15 @@ def _flag_form(R: Roles, p: PassLoop, cond: Optional[Term]):
                 if other[0] == "var":
                     len_ok = True
                     cnt = cnt or other[1]
+    any_mod = any(a_[0] == "binop" and a_[1] == "%" for x_ in parts if x_[0] == "eq" for a_ in term_to_poly(x_[1]).atoms())
+    if not any_mod and len(parts) == 1 and parts[0][0] == "eq" and y is not None:
+        one = _one_batch_form(R, p, parts[0], y, lens, want_bs)
+        if one is not None:
+            return one
+    if not any_mod and not (mod_ok and len_ok and len(parts) == 2):
+        # no modulo at all: another way of cutting the pass into batches (a fast path for passes that fit into one batch,
+        # a position compared with the last index): not decided here
+        return None, f"batch-closing flag {show(cond)[:80]} is written without the modulo form: not decided", "other-form"
     if not (mod_ok and len_ok and len(parts) == 2):
         return False, (f"batch-closing flag {show(cond)} is not 'counter % (config.batch_size or self.batch_size) == 0 or "
                        f"counter == len(config.sampler)' (batch size used: {bs_txt})"), show(cond)
@@ -489,6 +521,61 @@ def _flag_form(R: Roles, p: PassLoop, cond: Optional[Term]):
             "increment", None if once else "incremented twice per element",
             None if fresh else "not reset to 0 before every pass") if x)
     return ok, why, "mod-bs-or-len"
+
+
+def _one_batch_form(R: Roles, p: PassLoop, eq: Term, y: int, lens: Term, want_bs: Term):
+    """The flag 'position == len(config.sampler) - 1' (position = running index of 'enumerate(config.sampler)') closes only
+    the last element: the whole pass is ONE batch.  That is the property's batching exactly when the pass fits into one batch,
+    so the yield has to stand behind 'len(config.sampler) <= config.batch_size or self.batch_size'; behind a comparison with
+    another size it is a violation, without a comparison not decided."""
+    fa = R.fa
+    tg = p.loop.target
+    it = p.loop.iter
+    if not (isinstance(tg, ast.Tuple) and isinstance(tg.elts[0], ast.Name) and isinstance(it, ast.Call)
+            and len(it.args) == 1 and not it.keywords):
+        return None
+    pos = tg.elts[0].id
+    pl = term_to_poly(eq[1])
+    atoms = list(pl.atoms())
+    vs = [a for a in atoms if a[0] == "var" and a[1] == pos and a[2] == frozenset({p.next_node})]
+    if len(vs) != 1 or lens not in atoms or len(atoms) != 2:
+        return None
+    def co(P, a):
+        return P.terms.get(((a, 1),), 0)
+    cv, cl, c0 = co(pl, vs[0]), co(pl, lens), pl.terms.get((), 0)
+    if any(len(k) > 1 or (k and k[0][1] != 1) for k in pl.terms):
+        return None
+    if not ((cv, cl, c0) == (1, -1, 1) or (cv, cl, c0) == (-1, 1, -1)):
+        return None
+    bounds = []
+    for e, pol, c, tn in fa.cond_parts_at(y):
+        if c[0] not in ("le", "lt", "ge", "gt"):
+            continue
+        q = term_to_poly(c[1])
+        if lens not in q.atoms():
+            continue
+        bounds.append((e, pol, c, tn, q))
+    if not bounds:
+        return None, ("the pass is emitted as one batch (flag only at the last position) without a visible comparison of its "
+                      "length with the batch size: not decided"), "one-batch"
+    for e, pol, c, tn, q in bounds:
+        others = [a for a in q.atoms() if a != lens]
+        if any(len(m) > 1 or (m and m[0][1] != 1) for m in q.terms):
+            continue
+        k = co(q, lens)
+        # c is 'q <= 0' / 'q < 0' ...: want len - bs <= 0 (or < 0)
+        if len(others) == 1 and q.terms.get((), 0) == 0 and abs(k) == 1 and co(q, others[0]) == -k:
+            upper = (c[0] in ("le", "lt") and k == 1) or (c[0] in ("ge", "gt") and k == -1)
+            o = others[0]
+            o_ok = o == want_bs or (o[0] == "or" and tuple(_unver(b) for b in o[1]) == want_bs[1])
+            if upper and o_ok:
+                return True, ("a pass no longer than 'config.batch_size or self.batch_size' is emitted as one batch (flag at the "
+                              "last position)"), "mod-bs-or-len"
+            if upper:
+                return False, (f"one-batch fast path of the pass is taken when len(config.sampler) is at most {show(o)[:60]} "
+                               f"(line {R.line(tn)}), not 'config.batch_size or self.batch_size': a config with a smaller "
+                               "batch size of its own gets its whole pass as one batch"), "one-batch:" + show(_unver(o))
+    return None, "one-batch fast path behind a comparison that is not recognised: not decided", "one-batch"
 
 
 def _unver(t):
